@@ -281,20 +281,6 @@ fn copy_dir(from: &Path, to: &Path) {
     }
 }
 
-fn elems_text(publishes: &[(String, String)], updates: &[(String, String, String)], withdraws: &[(String, String)]) -> String {
-    let mut v: Vec<String> = Vec::new();
-    for (u, c) in publishes {
-        v.push(format!("P,{u},{c}"));
-    }
-    for (u, h, c) in updates {
-        v.push(format!("U,{u},{h},{c}"));
-    }
-    for (u, h) in withdraws {
-        v.push(format!("W,{u},{h}"));
-    }
-    if v.is_empty() { "-".into() } else { v.join(";") }
-}
-
 fn braces<T: AsRef<str>>(name: &str, items: &[T]) -> String {
     format!("{}{{{}}}", name, items.iter().map(|s| s.as_ref()).collect::<Vec<_>>().join(","))
 }
@@ -856,7 +842,6 @@ impl Run {
 
 //------------ generator --------------------------------------------------------------
 
-const HOSTS: &[&str] = &["rsync://localhost/", "rsync://LocalHost/", "RSYNC://localhost/", "Rsync://LOCALHOST/"];
 const FILES: &[&str] = &["a.cer", "b.roa", "m.mft", "sub/c.crl", "sub/d.roa", "A.cer"];
 
 struct Gen {
@@ -864,6 +849,10 @@ struct Gen {
     cfg: InitCfg,
     handles: Vec<String>,
     next_content: usize,
+    /// "C10", "C11" or "" – shifts the mix of operations and inputs
+    prop: String,
+    thorough: bool,
+    queue: std::collections::VecDeque<String>,
 }
 
 /// The publishers' view the generator keeps (parsed from the `L=` observation).
@@ -907,7 +896,7 @@ fn parse_view(obs: &str) -> View {
 }
 
 impl Gen {
-    fn new(mut rng: Rng, tier: &str) -> Self {
+    fn new(mut rng: Rng, tier: &str, prop: &str) -> Self {
         let handle_sets: &[&[&str]] = &[
             &["ca", "ca2", "ca/x"],
             &["ca", "cb"],
@@ -918,7 +907,8 @@ impl Gen {
             &["x/y", "x", "z"],
         ];
         // non-nested sets are chosen more often; nested ones reach the recorded finding
-        let hs = if rng.chance(1, 2) {
+        let plain = if prop == "C11" { 9 } else { 5 };
+        let hs = if rng.chance(plain, 10) {
             handle_sets[[1usize, 3][rng.below(2) as usize]]
         } else {
             handle_sets[rng.below(handle_sets.len() as u64) as usize]
@@ -932,7 +922,15 @@ impl Gen {
         let maxsecs = if rng.chance(1, 5) { 0 } else { HUGE };
         let interval = if rng.chance(1, 25) { HUGE } else { 0 };
         let cfg = InitCfg { base: rng.pick(&bases).to_string(), minnr, maxnr, minsecs, maxsecs, interval };
-        Gen { rng, cfg, handles: hs.iter().map(|s| s.to_string()).collect(), next_content: 0 }
+        Gen {
+            rng,
+            cfg,
+            handles: hs.iter().map(|s| s.to_string()).collect(),
+            next_content: 0,
+            prop: prop.to_string(),
+            thorough: tier == "thorough",
+            queue: Default::default(),
+        }
     }
 
     fn fresh_content(&mut self) -> usize {
@@ -946,7 +944,9 @@ impl Gen {
         // replace scheme://authority/ by a case variant
         let rest = uri.splitn(4, '/').nth(3).unwrap_or("");
         let auth = uri.splitn(4, '/').nth(2).unwrap_or("localhost");
-        let pick = self.rng.below(4);
+        // variant 2 (upper-case scheme, lower-case authority) is the one that is a different
+        // object key for an equal URI (finding F-C10-2): rare when C11 is the subject
+        let pick = if self.prop == "C11" && !self.rng.chance(1, 12) { [0u64, 1, 3][self.rng.below(3) as usize] } else { self.rng.below(4) };
         let (scheme, auth) = match pick {
             0 => ("rsync", auth.to_ascii_lowercase()),
             1 => ("rsync", "LocalHost".to_string()),
@@ -1056,6 +1056,9 @@ impl Gen {
     }
 
     fn gen_op(&mut self, view: &View, step: usize, pending_cut: &mut Option<u8>) -> String {
+        if let Some(op) = self.queue.pop_front() {
+            return op;
+        }
         // after a cut the next op is usually the retry
         if let Some(kind) = pending_cut.take() {
             if self.rng.chance(5, 6) {
@@ -1066,20 +1069,30 @@ impl Gen {
         if step < self.handles.len() && self.rng.chance(4, 5) {
             return format!("addpub {}", self.handles[step]);
         }
+        let c11 = self.prop == "C11";
+        let cutden = if c11 { 3 } else { 8 };
         let cutarg = |g: &mut Gen| -> String {
-            if g.rng.chance(1, 4) { format!(" cut={}", g.rng.below(14)) } else { String::new() }
+            if g.rng.chance(1, cutden) { format!(" cut={}", g.rng.below(14)) } else { String::new() }
         };
-        match self.rng.below(100) {
-            0..=4 => {
-                let hs = self.handles.clone();
-                format!("addpub {}", self.rng.pick(&hs))
-            }
-            5..=8 if !registered.is_empty() => format!("rmpub {}", self.rng.pick(&registered)),
-            9..=10 => {
-                let hs = self.handles.clone();
-                format!("rmpub {}", self.rng.pick(&hs))
-            }
-            11..=58 if !registered.is_empty() => {
+        // weights: addpub rmpub rmpub? pub unknown update reset delete write fsave frestore scan listq
+        let w: [u64; 13] = if c11 {
+            [3, 3, 1, 34, 1, 26, 8, 5, 6, 3, 2, 6, 2]
+        } else {
+            [5, 4, 2, 52, 2, 16, 4, 5, 3, 2, 1, 1, 3]
+        };
+        let total: u64 = w.iter().sum();
+        let mut r = self.rng.below(total);
+        let mut k = 0;
+        while r >= w[k] {
+            r -= w[k];
+            k += 1;
+        }
+        let hs = self.handles.clone();
+        match k {
+            0 => format!("addpub {}", self.rng.pick(&hs)),
+            1 if !registered.is_empty() => format!("rmpub {}", self.rng.pick(&registered)),
+            1 | 2 => format!("rmpub {}", self.rng.pick(&hs)),
+            3 if !registered.is_empty() => {
                 let h = self.rng.pick(&registered).clone();
                 let n = 1 + self.rng.below(4) as usize;
                 let bad_last = self.rng.chance(1, 4);
@@ -1091,35 +1104,34 @@ impl Gen {
                         els.push(e);
                     }
                 }
-                if self.rng.chance(1, 30) && !els.is_empty() {
+                if self.rng.chance(1, 40) && !els.is_empty() {
                     // a repeated element (outside the property's quantifier, model only)
                     let e = els[0].clone();
                     els.push(e);
                 }
                 if els.is_empty() { format!("pub {h} -") } else { format!("pub {} {}", h, els.join(";")) }
             }
-            59..=60 => {
+            3 | 4 => {
                 // an unknown publisher
-                let hs = self.handles.clone();
                 let h = self.rng.pick(&hs).clone();
                 let c = self.fresh_content();
                 format!("pub {} P,{}{}/a.cer,{}", h, self.cfg.base, h, c)
             }
-            61..=80 => {
+            5 => {
                 let c = cutarg(self);
                 if !c.is_empty() {
                     *pending_cut = Some(0);
                 }
                 format!("update{c}")
             }
-            81..=85 => {
+            6 => {
                 let c = cutarg(self);
                 if !c.is_empty() {
                     *pending_cut = Some(0);
                 }
                 format!("reset{c}")
             }
-            86..=89 => {
+            7 => {
                 let target = if let Some((_, (base, objs))) = view.pubs.iter().next() {
                     if let (true, Some((u, _))) = (self.rng.chance(1, 2), objs.iter().next()) {
                         u.clone()
@@ -1137,15 +1149,34 @@ impl Gen {
                 }
                 format!("delete {target}{c}")
             }
-            90..=93 => {
+            8 => {
                 let c = cutarg(self);
                 if !c.is_empty() {
                     *pending_cut = Some(0);
                 }
                 format!("write{c}")
             }
-            94..=95 => "fsave".into(),
-            96 => "frestore".into(),
+            9 => "fsave".into(),
+            10 => "frestore".into(),
+            11 => {
+                // every cut of one write: the state moves on (cut=0 leaves the files alone), then each
+                // prefix of the write is tried on a copy of the files, followed by a retry
+                let kmax = if self.thorough { 18 } else { 13 };
+                let first = if view.staged && self.rng.chance(3, 4) { "update cut=0" } else { "reset cut=0" };
+                self.queue.push_back(first.to_string());
+                // cuts in descending order: the recorded finding F-C11-1 sits near the end
+                let mut ks: Vec<u64> = (1..=kmax).collect();
+                if self.rng.chance(1, 2) {
+                    ks.reverse();
+                }
+                for k in ks {
+                    self.queue.push_back(format!("write cut={k}"));
+                    self.queue.push_back("write".into());
+                    self.queue.push_back("frestore".into());
+                }
+                self.queue.push_back("write".into());
+                "fsave".into()
+            }
             _ if !registered.is_empty() => format!("listq {}", self.rng.pick(&registered)),
             _ => "update".into(),
         }
@@ -1173,7 +1204,8 @@ fn main() {
         let mut rng = Rng::new(args.seed);
         for i in 0..args.n {
             let r = rng.fork();
-            let mut g = Gen::new(r, &args.tier);
+            let prop = args.extra.get("prop").cloned().unwrap_or_default();
+            let mut g = Gen::new(r, &args.tier, &prop);
             let mut run = Run { server: None, seed: args.seed.wrapping_mul(100_000) + i as u64 };
             writeln!(out, "case s{}-{}", args.seed, i).unwrap();
             let (line, obs) = run.exec(&g.cfg.line());
@@ -1181,8 +1213,10 @@ fn main() {
             let mut view = parse_view(&obs);
             let len = 3 + g.rng.below(args.len as u64 * 2) as usize;
             let mut pending_cut = None;
-            for step in 0..len {
+            let mut step = 0;
+            while step < len || (!g.queue.is_empty() && step < len + 80) {
                 let op = g.gen_op(&view, step, &mut pending_cut);
+                step += 1;
                 let (line, obs) = run.exec(&op);
                 writeln!(out, "{line} => {obs}").unwrap();
                 if obs.starts_with("ret=panic") || obs.starts_with("ret=dead") {
